@@ -177,3 +177,72 @@ Example c09_nonvacuous_lu_float : exists L U,
     lu_entry_ok (mat_of_lists [[0x1p+1; 0x1p+0; 0x1p+0]; [0x1p+2; 0x1.8p+1; 0x1.8p+1]; [0x1p+3; 0x1.cp+2; 0x1.2p+3]]%float)
                 L U i k.
 Proof. exact Proofs.LUFloat.ex_lu_float_hyps. Qed.
+
+(* ---------------------------------------------------------------------------------------------
+   The same for the PIVOTED factorisation [plu] (binary64 instance [@plu float FNum], the function
+   behind decompose(pivot=true) and the inverse); proofs in Proofs/PLUFloat.v.
+   [chain a l u m]: r_0 = a, r_(t+1) = r_t - l_t * u_t in the arithmetic of the instance — the value the
+   right-looking elimination leaves in a trailing entry after m updates.
+   [plu_entry_ok PA L U i k] (on the RETURNED factors and the row-permuted input PA i k = A (s i) k,
+   checkable by computation): with m = min i k, every product L_it * U_tk (t < m) is [okmul], every
+   link r_t (t <= m) of the chain from PA_ik is finite and, for k < i, the division r_m / U_kk is [okdiv].
+   --------------------------------------------------------------------------------------------- *)
+From SV Require Import Proofs.PLUFloat.
+
+(* any Num instance: P is the matrix of a permutation s of 0..n-1 (P r c = [c = s r], the description
+   used by c09_plu_shape / c09_plu_reconstruct) and the returned factors satisfy, entry by entry in the
+   arithmetic of the instance, the chain recurrences from the rows of A permuted by s *)
+Theorem c09_plu_recurrences : forall (T : Type) (NT : Num T) (n : nat) (A L U P : mat T),
+  plu n n A = Ok (L, U, P) ->
+  exists s, perm_on n s /\
+    (forall r c, (r < n)%nat -> (c < n)%nat -> P r c = if (c =? s r)%nat then n1 else n0) /\
+    PFinal n A s L U.
+Proof. exact (@Proofs.PLUFloat.plu_ok_final). Qed.
+Check c09_plu_recurrences : forall (T : Type) (NT : Num T) (n : nat) (A L U P : mat T),
+  plu n n A = Ok (L, U, P) ->
+  exists s, perm_on n s /\
+    (forall r c, (r < n)%nat -> (c < n)%nat -> P r c = if (c =? s r)%nat then n1 else n0) /\
+    PFinal n A s L U.
+Print Assumptions c09_plu_recurrences.
+
+(* componentwise backward error |L U - P A| <= ((1+eps)^n - 1) |L| |U| where (P A) i k = A (s i) k for
+   the row permutation s encoded by P; all entries of L, U finite *)
+Theorem c09_plu_float_backward_error : forall (n : nat) (A L U P : mat PrimFloat.float) (s : nat -> nat),
+  plu n n A = Ok (L, U, P) ->
+  (forall i j, (i < n)%nat -> (j < n)%nat ->
+     P i j = if (j =? s i)%nat then PrimFloat.one else PrimFloat.zero) ->
+  (forall i k, (i < n)%nat -> (k < n)%nat -> plu_entry_ok (fun r c => A (s r) c) L U i k) ->
+  forall i k, (i < n)%nat -> (k < n)%nat ->
+    is_finite (Prim2B (L i k)) = true /\ is_finite (Prim2B (U i k)) = true /\
+    Rabs (mprod n (fun r c => B2R (Prim2B (L r c))) (fun r c => B2R (Prim2B (U r c))) i k
+          - B2R (Prim2B (A (s i) k)))
+    <= ((1 + bpow radix2 (-53)) ^ n - 1)
+       * mprod n (fun r c => Rabs (B2R (Prim2B (L r c)))) (fun r c => Rabs (B2R (Prim2B (U r c)))) i k.
+Proof. exact Proofs.PLUFloat.plu_float_backward_error. Qed.
+Check c09_plu_float_backward_error : forall (n : nat) (A L U P : mat PrimFloat.float) (s : nat -> nat),
+  plu n n A = Ok (L, U, P) ->
+  (forall i j, (i < n)%nat -> (j < n)%nat ->
+     P i j = if (j =? s i)%nat then PrimFloat.one else PrimFloat.zero) ->
+  (forall i k, (i < n)%nat -> (k < n)%nat -> plu_entry_ok (fun r c => A (s r) c) L U i k) ->
+  forall i k, (i < n)%nat -> (k < n)%nat ->
+    is_finite (Prim2B (L i k)) = true /\ is_finite (Prim2B (U i k)) = true /\
+    Rabs (mprod n (fun r c => B2R (Prim2B (L r c))) (fun r c => B2R (Prim2B (U r c))) i k
+          - B2R (Prim2B (A (s i) k)))
+    <= ((1 + bpow radix2 (-53)) ^ n - 1)
+       * mprod n (fun r c => Rabs (B2R (Prim2B (L r c)))) (fun r c => Rabs (B2R (Prim2B (U r c)))) i k.
+Print Assumptions c09_plu_float_backward_error.
+
+(* non-vacuity, by computation: [[1,2,3],[4,5,6],[7,8,10]] needs two row interchanges (P A = rows 2, 0, 1
+   of A), its multipliers 1/7, 4/7, 1/2 are inexact, and its factors meet every hypothesis of
+   c09_plu_float_backward_error *)
+Example c09_nonvacuous_plu_float : exists L U P,
+  plu 3 3 (mat_of_lists [[0x1p+0; 0x1p+1; 0x1.8p+1]; [0x1p+2; 0x1.4p+2; 0x1.8p+2]; [0x1.cp+2; 0x1p+3; 0x1.4p+3]]%float)
+    = Ok (L, U, P) /\
+  (forall i j, (i < 3)%nat -> (j < 3)%nat ->
+     P i j = if (j =? match i with 0 => 2 | 1 => 0 | _ => 1 end)%nat then PrimFloat.one else PrimFloat.zero) /\
+  forall i k, (i < 3)%nat -> (k < 3)%nat ->
+    plu_entry_ok
+      (fun r c => mat_of_lists [[0x1p+0; 0x1p+1; 0x1.8p+1]; [0x1p+2; 0x1.4p+2; 0x1.8p+2]; [0x1.cp+2; 0x1p+3; 0x1.4p+3]]%float
+                    (match r with 0 => 2 | 1 => 0 | _ => 1 end)%nat c)
+      L U i k.
+Proof. exact Proofs.PLUFloat.ex_plu_float_hyps. Qed.
